@@ -37,7 +37,7 @@ def body_factory(tier, seed):
             sreq, sresp = GD.snake(req), GD.snake(resp)
             try:
                 obj = N.make_request(version, action, sreq, False)
-            except TypeError as e:
+            except Exception as e:  # noqa: BLE001
                 rep.violation("C19:unbuildable:%s:%s" % (version, action),
                               "the keywords a handler receives for a schema-valid %s request cannot be put into call.%s: %s" % (action, action, e),
                               {"kind": "relay", "version": version, "action": action, "request": req, "response": resp})
